@@ -39,11 +39,11 @@ def collect(res, rng, nruns, max_cases, kind="sh", integ="exp"):
             kw = dict(hopping_probability="poisson")       # the option belongs to plain FSSH; the cumulative class accumulates the unscaled rates either way
         a0 = rng.randrange(n) if rng.random() < 0.4 else 0
         tr = cls(model, x0, p0, a0, dt=dt, max_steps=nsteps, zeta_list=list(zl), seed_sequence=rng.randrange(2 ** 31), **kw)
-        if kind == "eh" and rng.random() < 0.8:
+        if kind == "eh" and (it % 3 != 2):
             # a coherent superposition so that the population-weighted force differs from any single-state force; sometimes a genuinely mixed state
             c = np.array([complex(rng.gauss(0, 1), rng.gauss(0, 1)) for _ in range(n)]); c /= np.linalg.norm(c)
             tr.rho = np.outer(c, c.conj())
-            if rng.random() < 0.4:
+            if it % 3 == 0:
                 A = np.array([[complex(rng.gauss(0, 1), rng.gauss(0, 1)) for _ in range(n)] for _ in range(n)]); r_ = A @ A.conj().T
                 tr.rho = r_ / np.trace(r_).real; res.count("fullstep-ehrenfest/mixed-initial")
         rec = {}
